@@ -328,6 +328,28 @@ class Graph:
                 break
         return paths
 
+    def all_paths(self, depth, keep=None, limit=2000000):
+        """every path of exactly `depth` steps (or shorter if it dead-ends) from the initial states along the
+        edges whose action satisfies keep(action): exhaustive call sequences over a reduced alphabet, for
+        behaviour that depends on history the model abstracts from (allocation state, internal buffers)"""
+        out = []
+        stack = [(i, []) for i in self.inits]
+        while stack:
+            cur, acts = stack.pop()
+            if len(acts) == depth:
+                out.append(acts)
+                if len(out) >= limit:
+                    break
+                continue
+            nxt = [(a, t) for (a, t) in self.succ.get(cur, ()) if keep is None or keep(a)]
+            if not nxt:
+                if acts:
+                    out.append(acts)
+                continue
+            for a, t in nxt:
+                stack.append((t, acts + [a]))
+        return out
+
     def random_walks(self, n, depth, rng):
         out = []
         for _ in range(n):
